@@ -53,6 +53,7 @@ type Exec struct {
 	goPolicy string
 	spawned []*spawnedGo
 	bitScanStack []bitScanCtx
+	killPath *Term
 	backings map[string]*Object
 	panicAsAssume bool // treat explicit panics as path end without obligation (per harness option)
 }
@@ -129,6 +130,9 @@ func (x *Exec) addOblig(kind, id string, cond *Term, pos token.Pos) {
 
 // runtimeCheck records a panic obligation: bad is the failure condition under guard g.
 func (x *Exec) runtimeCheck(what string, g, bad *Term, pos token.Pos) {
+	if bad.IsTrue() {
+		x.killPath = g
+	}
 	cnd := x.c.And(g, bad)
 	if cnd.IsFalse() {
 		x.stat.instrs++ // cheap counter; trivially discharged checks are not recorded individually
@@ -452,6 +456,12 @@ func (x *Exec) runBlock(fr *Frame, b *ssa.BasicBlock) {
 			x.curPos = in.Pos()
 		}
 		x.step(fr, b, in)
+		if x.killPath != nil {
+			// a run-time check failed for certain on this path: execution does not continue
+			fr.died = x.c.Or(fr.died, x.killPath)
+			fr.cur = x.c.And(fr.cur, x.c.Not(x.killPath))
+			x.killPath = nil
+		}
 	}
 }
 
@@ -598,6 +608,7 @@ func (x *Exec) step(fr *Frame, b *ssa.BasicBlock, in ssa.Instruction) {
 	case *ssa.Alloc:
 		et := t.Type().(*types.Pointer).Elem()
 		o := x.newObject(et, x.zero(et), t.Comment)
+		o.Birth = g
 		x.setVal(fr, t, &PtrV{Obj: o})
 	case *ssa.Store:
 		x.store(x.ptrChecked(fr, t.Addr, g, t.Pos()), x.eval(fr, t.Val), g)
@@ -1095,6 +1106,14 @@ func (x *Exec) convert(v Value, from, to types.Type) Value {
 		}
 		if isFloat(from) && isInteger(to) {
 			ts, _ := x.scalarSort(to)
+			if tv.Op == OApply && tv.Name == "vx.floorlog2.uint" {
+				// floor(log2(float64(u))) converted to an integer: index of the highest set bit for u>0;
+				// for u==0 (log2 = -Inf) the conversion result is implementation-defined: arbitrary value
+				u := tv.A[0]
+				hi := c.Sub(c.Const(64, uint64(u.Sort.W-1)), x.clz(u))
+				arb := c.Fresh("float-to-int-of-minus-inf", BV(64))
+				return c.Resize(c.Ite(c.Eq(u, c.Const(u.Sort.W, 0)), arb, hi), ts.W, false)
+			}
 			return c.FpToInt(tv, ts.W, isSigned(to))
 		}
 		if isFloat(from) && isFloat(to) {
@@ -1264,7 +1283,12 @@ func (x *Exec) indexAddr(fr *Frame, t *ssa.IndexAddr, g *Term) Value {
 			et := t.Type().(*types.Pointer).Elem()
 			return &PtrV{Obj: x.newObject(et, x.zero(et), "oob-dummy")}
 		}
-		x.runtimeCheck("index-out-of-range", g, c.Not(c.Ult(idx, bv.Len)), t.Pos())
+		oob := c.Not(c.Ult(idx, bv.Len))
+		x.runtimeCheck("index-out-of-range", g, oob, t.Pos())
+		if oob.IsTrue() {
+			et := t.Type().(*types.Pointer).Elem()
+			return &PtrV{Obj: x.newObject(et, x.zero(et), "oob-dummy")}
+		}
 		return x.ptrExtend(bv.Base, PathElem{Field: -1, Idx: c.Add(bv.Off, idx)})
 	case *PtrV, *PtrSetV:
 		p := x.ptrChecked(fr, t.X, g, t.Pos())
